@@ -1,0 +1,23 @@
+//go:build verif
+
+package route
+
+import "net/http"
+
+// Verification hook for the redirect check (build tag verif). No behaviour is changed.
+
+// VerifC13Candidates returns, for every host Lookup tries in order (the matching host patterns, most specific
+// first, then the no-host fallback ""), the target the unexported lookup yields for the request path (nil
+// when that host has no matching route). It mirrors the first lines of Lookup and calls the same functions.
+func VerifC13Candidates(t Table, req *http.Request, pick picker, match matcher, globCache *GlobCache, globDisabled bool) (hosts []string, targets []*Target) {
+	if globDisabled {
+		hosts = t.matchingHostNoGlob(req)
+	} else {
+		hosts = t.matchingHosts(req, globCache)
+	}
+	hosts = append(hosts, "")
+	for _, h := range hosts {
+		targets = append(targets, t.lookup(h, req.URL.Path, "", pick, match))
+	}
+	return hosts, targets
+}
